@@ -311,10 +311,10 @@ theorem connect_spec : ∀ (states : List PInodeState) (nodes : List PNode),
       by_cases hk : n.ino = st.parent
       · have h1 : (n.ino == st.parent) = true := by simp [hk]
         have h2 : (st.parent == n.ino) = true := by simp [hk]
-        simp [h1, kids, List.filter_cons, h2, List.append_assoc]
+        simp [h1, kids, h2, List.append_assoc]
       · have h1 : (n.ino == st.parent) = false := by simp [hk]
         have h2 : (st.parent == n.ino) = false := by simp; exact fun h => hk h.symm
-        simp [h1, kids, List.filter_cons, h2]
+        simp [h1, kids, h2]
     · intro st' hst'
       obtain ⟨n, hn, hni⟩ := hp st' (List.mem_cons_of_mem _ hst')
       refine ⟨_, List.mem_map_of_mem hn, ?_⟩
@@ -382,8 +382,26 @@ theorem restorePseudo_save {p : Pseudo} (h : WF p) :
         simp only at hc
         rw [hroot, hco] at hc
         rw [hkids, ← hc]
-      · apply List.map_congr_left |>.trans (List.map_id' rest) |>.symm ▸ ?_
-        sorry
-  · sorry
+      · rw [List.map_congr_left (g := id), List.map_id]
+        intro x hx
+        have hc := h.children x (by rw [hroot]; exact List.mem_cons_of_mem _ hx)
+        rw [hroot, hco] at hc
+        simp only [Function.comp, toState, List.nil_append, id]
+        have hk := hkids x.ino
+        rw [hk, ← hc]
+  · intro st hst
+    obtain ⟨x, hx, rfl⟩ := List.mem_map.mp hst
+    obtain ⟨q, hq, hqi⟩ := h.parent x (by rw [hroot]; exact List.mem_cons_of_mem _ hx)
+    rw [hroot] at hq
+    rcases List.mem_cons.mp hq with h1 | h1
+    · refine ⟨rootNode, List.mem_cons_self, ?_⟩
+      rw [h1] at hqi
+      simp only [toState, rootNode]
+      exact hqi
+    · refine ⟨{ ino := q.ino, parent := q.parent, name := q.name, children := [] }, ?_, ?_⟩
+      · apply List.mem_cons_of_mem
+        rw [List.map_map]
+        exact List.mem_map.mpr ⟨q, h1, rfl⟩
+      · simp only [toState]; exact hqi
 
 end Fbr.Lemmas.VfsPseudo
